@@ -1,0 +1,14 @@
+//go:build verif
+
+package cache
+
+// VerifShutdownQueues shuts down the work queues a SchedulerCache creates in its constructor
+// (resync, node sync, job cleanup, hypernode sync).  Each of them owns a delaying-queue goroutine
+// that otherwise lives for ever; an external harness that builds one mock cache per case calls
+// this when it is done with the cache.  Nothing else is touched.
+func (sc *SchedulerCache) VerifShutdownQueues() {
+	sc.errTasks.ShutDown()
+	sc.nodeQueue.ShutDown()
+	sc.DeletedJobs.ShutDown()
+	sc.hyperNodesQueue.ShutDown()
+}
